@@ -26,7 +26,9 @@ VALUES = {
     "float": {"zero": [0.0], "maxfloat": [1.7976931348623157e308], "denormal": [5e-324], "negative": [-1.5, -2.5e-10], "fraction": [0.1, 1 / 3]},
     "varchar": {"empty": [""], "plain": ["abc"], "unicode": ["é😀日本", "é́"], "quote": ["it's \"q\"", "''"], "newline": ["a\nb\tc"], "long": ["x" * 5000],
                 # text that looks like a session variable reference (VT_AMOUNT is set on the connection, $5 / $nosuch are not) or like a placeholder
-                "dollar": ["pay $vt_amount now", "costs $5", "$nosuch_var", "$VT_AMOUNT"], "percent": ["100%s off", "%(x)s and ? and :1", "50%"]},
+                "dollar": ["pay $vt_amount now", "costs $5", "$nosuch_var", "$VT_AMOUNT"], "percent": ["100%s off", "%(x)s and ? and :1", "50%"],
+                # backslashes; text that mentions the instance's no-op pattern (alter\s+session) without being such a statement
+                "bslash": ["C:\\temp\\new", "a\\b", "\\"], "nopword": ["please alter session now", "they alter  session"]},
     "date": {"epoch": [dt.date(1970, 1, 1)], "pre1970": [dt.date(1969, 12, 31), dt.date(1900, 2, 28)], "min": [dt.date(1, 1, 1)], "max": [dt.date(9999, 12, 31)],
              "leapday": [dt.date(2024, 2, 29)]},
     "time": {"midnight": [dt.time(0, 0, 0)], "usec": [dt.time(12, 34, 56, 123456)], "last": [dt.time(23, 59, 59, 999999)]},
@@ -146,7 +148,7 @@ class C01(Prop):
 
         global _FS, _N
         if _FS is None:
-            _FS = fakesnow.instance.FakeSnow()
+            _FS = fakesnow.instance.FakeSnow(nop_regexes=[r"alter\s+session"])
             c0 = _FS.connect("DB1", "S1").cursor()
             c0.execute("create table bystander (s varchar)")
             c0.execute("insert into bystander values ('keep')")
@@ -202,11 +204,12 @@ class C01(Prop):
                     else:
                         raw.execute(f"insert into {name} values (?, ?)", [i, json.dumps(v) if ty in JSONT and v is not None else v])
 
-            if path == "literal":
+            if path in ("literal", "literal_script"):
+                run = cur.execute if path == "literal" else (lambda sql: list(conn.execute_string(sql)))
                 if ty in JSONT:
-                    cur.execute(f"insert into {tname} " + " union all ".join(f"select {i}, {lit(ty, v)}" for i, v in enumerate(vals)))
+                    run(f"insert into {tname} " + " union all ".join(f"select {i}, {lit(ty, v)}" for i, v in enumerate(vals)))
                 else:
-                    cur.execute(f"insert into {tname} values " + ", ".join(f"({i}, {lit(ty, v)})" for i, v in enumerate(vals)))
+                    run(f"insert into {tname} values " + ", ".join(f"({i}, {lit(ty, v)})" for i, v in enumerate(vals)))
             elif path in ("pyformat", "qmark"):
                 ph = "%s" if path == "pyformat" else "?"
                 for i, v in enumerate(vals):
